@@ -254,7 +254,7 @@ pub fn catalogue() -> Vec<(String, Vec<MLayer>)> {
 pub fn run(ctx: Arc<Ctx>) {
 	ctx.rule(
 		"catalogue: C10's 12 tiles + tiles around layer 'a' with an id key (ids as string / int64 / sint64 / uint64 / float / double with integral and fractional values, float vs double, unknown geometry type, duplicate keys/values, unused entries, untouched second layer) + all key tables of length <= 3 over {id,k}; \
-		 x 6 data tables (string ids, numeric ids as integers and decimals, zero-padded ids) x 2^3 options (replace, remove_non_matching, include_id) x layer name {a, absent} x source compression; reference join on the independently decoded form; plus decode -> encode of every catalogue tile through the repository's VectorTile; plus the bounded-exhaustive small-layer family (5 key tables x 4 value tables x feature lists with every tag list of <= 2 pairs; all 409) joined on key k under all 16 (options, layer name) configurations; plus data files in every documented CSV layout (quoted cells with separators / doubled quotes / line breaks / non-ASCII text, CRLF, blank lines, missing final line end: 32 layouts) and long tables whose cells of interest are cut at every byte by the 4096 / 8192 byte borders of the reader's buffer. \
+		 x 6 data tables (string ids, numeric ids as integers and decimals, zero-padded ids) x 2^3 options (replace, remove_non_matching, include_id) x layer name {a, absent} x source compression; reference join on the independently decoded form; plus decode -> encode of every catalogue tile through the repository's VectorTile (incl. ids / values / coordinates / string lengths at every border of the varint encoding, and tiles whose length prefixes run through 2^7, 2^14, 2^21); plus the bounded-exhaustive small-layer family (5 key tables x 4 value tables x feature lists with every tag list of <= 2 pairs; all 409) joined on key k under all 16 (options, layer name) configurations; plus data files in every documented CSV layout (quoted cells with separators / doubled quotes / line breaks / non-ASCII text, CRLF, blank lines, missing final line end: 32 layouts) and long tables whose cells of interest are cut at every byte by the 4096 / 8192 byte borders of the reader's buffer. \
 		 non-trivial = (tile, table, options) where the reference join changes at least one feature",
 	);
 	let cat = catalogue();
@@ -311,6 +311,38 @@ pub fn run(ctx: Arc<Ctx>) {
 				}
 			},
 		}
+	}
+	// every length prefix of a tile on the borders of its varint encoding: one string value whose length runs through
+	// 2^k - 40 ..= 2^k + 2 (k = 7, 14, 21), so that the value message, the layer message and the string itself each
+	// reach exactly 2^k - 1, 2^k and 2^k + 1 bytes in one of the tiles
+	{
+		let mut lens: Vec<usize> = vec![];
+		for k in [7u32, 14, 21] {
+			let b = 1usize << k;
+			lens.extend(b - 40..=b + 2);
+		}
+		let lr = &lens;
+		let ctxr: &Ctx = &ctx;
+		par_for(lens.len(), |i| {
+			let len = lr[i];
+			let raw = mvt::encode_tile(&[layer("a", &["k"], vec![s(&"x".repeat(len)), s("y")], vec![feat(Some(1), &[0, 0], 1, point(1, 1)), feat(Some(2), &[0, 1], 1, point(2, 2))])]);
+			let want = mvt::decode_tile(&raw).expect("length tile decodes");
+			ctxr.eval();
+			let case = json!({"kind": "reencode", "tile": format!("string value of {len} bytes")});
+			match catch(|| VectorTile::from_blob(&Blob::from(raw.as_slice())).and_then(|t| t.to_blob())) {
+				Err(p) => ctxr.violation(&format!("decode/encode of a valid vector tile panics at {}", panic_site(&p)), &format!("string of {len} bytes: {p}"), case),
+				Ok(Err(e)) => ctxr.violation(&format!("a valid vector tile cannot be decoded/encoded: {}", super::c01::norm_msg(&format!("{e:#}"))), &format!("string of {len} bytes: {e:#}"), case),
+				Ok(Ok(b)) => match mvt::decode_tile(b.as_slice()) {
+					Err(e) => ctxr.violation("re-encoded vector tile is not a valid tile", &format!("string of {len} bytes: {e}"), case),
+					Ok(got) => {
+						if let Some((clause, why)) = compare(&got, &want, "\u{0}") {
+							ctxr.violation(&format!("decode -> encode without changes alters the tile: {}", clause.replace("other layer: ", "")), &format!("string of {len} bytes: {}", why.chars().take(200).collect::<String>()), case);
+						}
+					}
+				},
+			}
+		});
+		ctx.outcome_n("tiles whose length prefixes run through the varint borders 2^7, 2^14, 2^21", lens.len() as u64);
 	}
 	// the same for tiles that spell a feature's packed fields in the other forms protobuf allows
 	for (name, raw) in [("tags split into two packed chunks", mvt::encode_tile_alternative_packing(false)), ("tags as unpacked varints", mvt::encode_tile_alternative_packing(true))] {
